@@ -150,6 +150,20 @@ def correspond(ctx: C.Ctx, cov: C.Coverage) -> List[C.Disagreement]:
 
 # ----------------------------------------------------------------------------------------------- oracle
 
+def interfere(obj) -> None:
+    """other uses of the XML adapter in the same process before the round trip under test (see c03.interfere)"""
+    from basyx.aas import model
+    from basyx.aas.adapter.xml import xml_deserialization as D, write_aas_xml_file
+    store = model.DictObjectStore([obj]) if isinstance(obj, model.Identifiable) else model.DictObjectStore()
+    buf = io.BytesIO(); write_aas_xml_file(buf, store); full = buf.getvalue()
+    single = xml_bytes(obj)
+    for stripped in (True, False):
+        for failsafe in (True, False):
+            for dec in (None, D.AASFromXmlDecoder, D.StrictAASFromXmlDecoder, D.StrippedAASFromXmlDecoder, D.StrictStrippedAASFromXmlDecoder):
+                D.read_aas_xml_file(io.BytesIO(full), failsafe=failsafe, stripped=stripped, decoder=dec)
+                D.read_aas_xml_element(io.BytesIO(single), constructable(obj), failsafe=failsafe, stripped=stripped, decoder=dec)
+
+
 def check_object(obj, case) -> Optional[C.Failing]:
     c03._quiet()
     from basyx.aas import model
@@ -157,6 +171,8 @@ def check_object(obj, case) -> Optional[C.Failing]:
     from vf import canon
     c1 = canon.canon(obj)
     try:
+        if case.get("mix", True):
+            interfere(obj)
         o2 = read_aas_xml_element(io.BytesIO(xml_bytes(obj)), constructable(obj), failsafe=False)
         d = canon.diff(c1, canon.canon(o2)) if o2 is not None else "reader returned None"
         if d:
